@@ -16,11 +16,16 @@
    Missing for C09_full: [layout_reader_spec] itself (the scanner/parser/loader models read every document of
    Spec/BlockLayout.v as the tree it denotes), and strings containing U+FEFF (the block-scalar specification, like
    YAML, excludes it from block scalar content; the emitter writes it there and the scanner reads it back — covered
-   by the differential run only). *)
+   by the differential run only).
+   END TO END, without a reader hypothesis (T10-T13): for the SIMPLE trees (simple_tree, Proofs/EmitterRoundTripDefs.v:
+   non-empty block sequences / mappings nested at most 255 deep whose leaves and keys are one-word plain texts) the
+   whole model pipeline reads the emitted text back as the tree, under all four settings. *)
 From Coq Require Import List NArith ZArith Bool.
 Import ListNotations.
 Require Import Resolver CoreSchema Escapes CharTraits Consts Loader QuotedLine BlockScalar BlockLayout Emitter EmitterProofs
                EmitterBlock EmitterScalar EmitterFull EmitterTree.
+Require Import Parser SBase SFetch Pipe PipeL Drivers TokenGrammar FlowText BlockText
+               EmitterRoundTripDefs EmitterRoundTripScan EmitterRoundTripScanAll EmitterRoundTrip.
 Open Scope N_scope.
 
 (* T1. A string the emitter writes plain (need_quotes = false) is read back by the resolver as that same string.
@@ -135,6 +140,50 @@ Theorem C09_full_from_layout_reader_partial : layout_reader_spec ->
 Proof. exact full_from_layout_reader. Qed.
 Print Assumptions C09_full_from_layout_reader_partial.
 
+(* ---- the round trip END TO END for simple trees: no reader hypothesis ----
+   simple_tree doc (EmitterRoundTripDefs.v, a bool): the root is a non-empty sequence or mapping; below it non-empty sequences
+   and mappings, at most 255 collections deep (the scanner's BLOCK_NESTING_MAX); every leaf is ONE WORD (FlowText.word_ok:
+   no blank, break, NUL, flow indicator, quote, none of : # - ? * & ! | > % @ `) that the emitter writes plain: a string
+   with need_quotes = false, null (~), a boolean, a non-negative 64-bit integer, a float text that is a word; the keys of a
+   mapping are such leaves of at most 1024 characters, pairwise different as values.
+   T10. Under both `compact` settings (and both `multiline` settings: no line feed occurs) the emitted text is, literally,
+   the header line "---" followed by the text of the node [node_of compact true doc] of the block text sub-language
+   Spec/BlockText.v WITHOUT its final line feed: a collection that is an item of a sequence stands compact behind its "-"
+   (`- - a`, `- k: v`) when compact, else below, 2 columns right; a collection that is the value of a key stands below,
+   2 columns right of the key (never indentless); the node is a well-formed document of that language within the depth bound. *)
+Theorem C09_simple_tree_text_partial : forall c m doc, simple_tree doc = true ->
+  dump_doc c m doc = doc_header ++ blast (node_of c true doc)
+  /\ bwf_root (node_of c true doc) = true /\ nobi (node_of c true doc) = true /\ (bdepth (node_of c true doc) <= 255)%nat.
+Proof. exact simple_tree_text. Qed.
+Print Assumptions C09_simple_tree_text_partial.
+
+(* T11. The scanner model on "---" LF followed by ANY document n of the block text sub-language without indentless
+   sequences, nested at most 255 deep, WITHOUT the final line feed (blast n = removelast (bdoc_text n)): it ends normally
+   and delivers StreamStart, DocumentStart, the tokens of the layout tree of n, StreamEnd.  Extends C03_block_text_tokens
+   (whose texts have no header line and end with a line feed): the DocumentStart token and the line break behind "---";
+   the last word standing in front of the end of the input, where its simple key is still possible (not stale, not
+   required), so that the word's token is handed out only after the end of the input has been fetched (or before, when the
+   word is longer than 1024 characters and the key has gone stale), together with the BlockEnd tokens of all open
+   collections and StreamEnd, the end mark being moved to the next line. *)
+Theorem C09_block_text_without_final_lf_tokens_partial : forall n,
+  bwf_root n = true -> nobi n = true -> (bdepth n <= 255)%nat ->
+  exists toks, scan_str (doc_header ++ blast n) = (toks, SEnded) /\ map snd toks = wrap true false (tokens_of (blt n)).
+Proof. exact scan_block_doc. Qed.
+Print Assumptions C09_block_text_without_final_lf_tokens_partial.
+
+(* T12. Hence the whole model pipeline (PipeL.run_load: scanner, parser with Parser::load's anchor clearing, loader,
+   resolver) reads the emitted text of a simple tree as exactly one document, the tree: parser by the C03 parser theorem
+   (parse_wrap, transferred to Parser::load), loader by C07_refinement, keys by C07_document_order, leaves by T1 / T4. *)
+Theorem C09_simple_tree_loads_partial : forall c m doc, simple_tree doc = true ->
+  PipeL.run_load (dump_doc c m doc) = PipeL.LDocs [to_yaml doc].
+Proof. exact simple_tree_loads. Qed.
+Print Assumptions C09_simple_tree_loads_partial.
+
+(* T13. C09_full restricted to simple trees, under all four settings. *)
+Theorem C09_round_trip_simple : forall c m doc, simple_tree doc = true -> round_trip_ok c m doc = true.
+Proof. exact round_trip_simple. Qed.
+Print Assumptions C09_round_trip_simple.
+
 (* Non-vacuity: hypotheses are satisfiable, oracles are not constant. *)
 Example C09_plain_exists : need_quotes [97; 32; 45; 98] = false.
 Proof. vm_compute. reflexivity. Qed.
@@ -180,3 +229,21 @@ Proof. exact sample_layout_instance. Qed.
 Example C09_pipeline_rejects_long_implicit_key :
   PipeL.run_load ([45;45;45;10] ++ repeat 97 1025 ++ [58; 32; 55]) = PipeL.LErr.
 Proof. exact long_implicit_key_rejected. Qed.
+(* T13 applied: a mixed tree, 4 collections deep -- a: [b, [1, {k: ~}], {true: 1.5, 7: x}], m: {n: [z]} -- is simple, so it
+   round-trips under every setting (by the theorem, not by evaluation); and the boundary of simple_tree: two words, a
+   string that needs quotes, a word with '-', empty collections, a negative integer, a scalar at the root, a repeated key
+   are outside; null, booleans, non-negative integers, float words are inside. *)
+Example C09_simple_example : simple_tree simple_example = true /\ ndepth simple_example = 4%nat.
+Proof. exact simple_example_ok. Qed.
+Example C09_simple_example_round_trip : forall c m, round_trip_ok c m simple_example = true.
+Proof. intros c m. apply C09_round_trip_simple. exact (proj1 simple_example_ok). Qed.
+Example C09_simple_boundary :
+  simple_tree (NSeq [NStr [97; 32; 98]]) = false
+  /\ simple_tree (NSeq [NStr w_true]) = false
+  /\ simple_tree (NSeq [NStr [97; 45; 98]]) = false
+  /\ simple_tree (NSeq []) = false /\ simple_tree (NSeq [NMap []]) = false
+  /\ simple_tree (NSeq [NInt (-1)]) = false
+  /\ simple_tree (NStr [97]) = false
+  /\ simple_tree (NMap [(NStr [97], NInt 1); (NStr [97], NInt 2)]) = false
+  /\ simple_tree (NSeq [NInt 0; NBool false; NNull; NStr [97]; NFloat [49; 101; 51]]) = true.
+Proof. exact simple_boundary. Qed.
